@@ -256,6 +256,11 @@ def _samplers(c, e, D, bad):
         p = S.sample2d_points(Rec(), pts)
         if list(p) != [code(float(a), float(b)) for a, b in pts]:
             bad("points-sampler-differs", "sample2d_points")
+        # the same points handed over as the transpose of (xs, ys) - column-major in memory - and as a plain list of pairs
+        for lay, alt in (("transposed-columns", np.array([pts[:, 0].copy(), pts[:, 1].copy()]).T), ("fortran-ordered", np.asfortranarray(pts)), ("list", pts.tolist())):
+            if list(S.sample2d_points(Rec(), alt)) != list(p):
+                bad("points-sampler-depends-on-memory-layout", f"sample2d_points, {lay}")
+                break
         rv = Rec(True)
         vx, vy, vs = S.samplevector2d(rv, (xr[0], xr[1], n), (yr[0], yr[1], m))
         if vs.shape != (n, m, 3) or not _argsclose(list(vx), ex, 1e-15) or not _argsclose(list(vy), ey, 1e-15) \
@@ -289,6 +294,15 @@ def _samplers(c, e, D, bad):
     p = S.sample3d_points(Rec(), pts)
     if list(p) != [code(float(a), float(b), float(cc)) for a, b, cc in pts]:
         bad("points-sampler-differs", "sample3d_points")
+    for lay, alt in (("transposed-columns", np.array([pts[:, 0].copy(), pts[:, 1].copy(), pts[:, 2].copy()]).T), ("fortran-ordered", np.asfortranarray(pts)), ("list", pts.tolist())):
+        if list(S.sample3d_points(Rec(), alt)) != list(p):
+            bad("points-sampler-depends-on-memory-layout", f"sample3d_points, {lay}")
+            break
+        if lay != "list":
+            va = S.samplevector3d_points(Rec(True), alt)
+            if va.shape != (len(pts), 3) or any(not veq(va[q], vcode(float(a), float(b), float(cc))) for q, (a, b, cc) in enumerate(pts)):
+                bad("points-sampler-depends-on-memory-layout", f"samplevector3d_points, {lay}")
+                break
     rv = Rec(True)
     out = S.samplevector3d(rv, (xr[0], xr[1], n), (yr[0], yr[1], m), (zr[0], zr[1], k))
     vs = out[3]
